@@ -20,7 +20,7 @@ RULE = ('random grammars (profile: many skipws/noskipws/ws= rule modifiers on se
         'boundary kind); non-trivial = boundary lies inside a rule with a modifier, a Comment grammar, or under eolterm')
 REQUIRED = {'inputs': 200, 'tokens_context_checked': 2000, 'insertions_active': 500, 'insertions_inactive': 100,
             'comment_insertions': 30, 'modifier_boundaries': 100, 'skipped_spans_checked': 1000,
-            'inputs_with_suppressed_tokens_made_visible': 50}
+            'inputs_with_suppressed_tokens_made_visible': 50, 'grammars_with_alias_comment_rule': 10}
 
 ML = None
 PS = None
@@ -53,6 +53,12 @@ def _one(ctx, i, rep=None):
         gen_.psupref = 0.2
         gen_.pskip, gen_.pws = 0.5, 0.3
     g = gen_.grammar()
+    if g.rule('Comment') is not None and i % 4 == 1:
+        # the Comment rule as an alias of another match rule
+        cr = g.rule('Comment')
+        g.rules.append(RP.Rule('CommentBody', cr.body))
+        cr.body = RP.Ref('CommentBody')
+        ctx.count('grammars_with_alias_comment_rule')
     text = RP.pr_grammar(g)
     cfg = dict(skipws=r.random() < 0.85, auto_init_attributes=True, use_regexp_group=False)
     if r.random() < 0.25:
@@ -81,6 +87,11 @@ def _one(ctx, i, rep=None):
             ML.enabled = False
         events = list(ML.events)
         stripped = PS.stripped_restores - sr0
+        if got[0] == 'crash' and 'RecursionError' not in got[1]:
+            # an input the grammar accepts makes loading raise something that is not a textX error
+            ctx.violation(None, 'loading an accepted input raised %s' % got[1][:120], {'grammar': text, 'input': s, 'config': cfg}, rep)
+            ctx.case((skel, P.token_kinds(s), 'crash'), True)
+            break
         if got != ref:
             continue        # acceptance/model divergences are C01's business
         ctx.count('inputs')
@@ -111,7 +122,7 @@ def _one(ctx, i, rep=None):
                 # remove comment matches, what is left must be whitespace of the active set
                 if comment_rule is not None and not in_c:
                     import re
-                    rest = re.sub(comment_rule.body.pat, '', rest, flags=re.M)
+                    rest = re.sub(RP.comment_pattern(g), '', rest, flags=re.M)
                 if any(ch not in tx_ws for ch in rest) and not (comment_rule is not None and not skipws):
                     bad = 'before token %r at %d textX skipped %r which is not in the active set %r' % (t.text, t.start, skipped, tx_ws)
                     break
@@ -138,7 +149,7 @@ def _one(ctx, i, rep=None):
             if inactive:
                 choices.append(('inactive', r.choice(inactive)))
             if comment_rule is not None:
-                line = comment_rule.body.pat.startswith('\\/\\/') or comment_rule.body.pat.startswith('//')
+                line = RP.comment_pattern(g).startswith('\\/\\/') or RP.comment_pattern(g).startswith('//')
                 # a line comment needs its terminating newline, which must itself be skippable here
                 if not line:
                     choices.append(('comment', '/* x1 */'))
